@@ -784,6 +784,33 @@ func rulePanicShift(c *Ctx) []*Obligation {
 					continue
 				}
 				_, nn, bd := c.numericGuards(cnt, bo)
+				// exact range: 0 <= count <= width-1 of the shifted operand, by the difference-bound prover
+				// (a count equal to the width is already out of range)
+				width := int64(64)
+				if bt, ok := bo.X.Type().Underlying().(*types.Basic); ok {
+					switch bt.Kind() {
+					case types.Int8, types.Uint8:
+						width = 8
+					case types.Int16, types.Uint16:
+						width = 16
+					case types.Int32, types.Uint32:
+						width = 32
+					}
+				}
+				bp := &boundsProver{c: c, fn: fn, ex: ex}
+				lo := bp.newDBM(bo).leq(dterm{}, 0, vterm(cnt), 0)
+				hi := bp.newDBM(bo).leq(vterm(cnt), 0, dterm{}, width-1)
+				if lo && !hi && bd {
+					// a bound exists but it admits the width itself (count <= width instead of count < width)
+					if bp.newDBM(bo).leq(vterm(cnt), 0, dterm{}, width) {
+						o.bad(key, c.Pos(bo.Pos()), "shift count "+ex.str(cnt)+" is only bounded by <= "+fmt.Sprint(width)+", the operand's width itself: a shift by exactly the width yields a wrong value instead of an error")
+						continue
+					}
+				}
+				if lo && hi {
+					o.ok(key, c.Pos(bo.Pos()), fmt.Sprintf("0 <= %s <= %d proved from the dominating tests", ex.str(cnt), width-1))
+					continue
+				}
 				switch {
 				case nn && bd:
 					o.ok(key, c.Pos(bo.Pos()), "dominated by 0 <= "+ex.str(cnt)+" < width")
